@@ -2,12 +2,14 @@ package main
 
 import (
 	"fmt"
+	"hash/crc32"
+	"os"
 	"path/filepath"
 	"strings"
 )
 
 // StateRec: layout constants of the database state record (db19/state.go writeState/readState):
-// magic1, magic2, dateSize, stor.SmallOffsetLen, cksum.Len.
+// magic1, magic2, dateSize, stor.SmallOffsetLen, cksum.Len, and the crc polynomial cksum uses.
 func init() {
 	register("StateRec", func(repo string, out *strings.Builder) error {
 		g := parseGo(filepath.Join(repo, "db19/state.go"))
@@ -31,6 +33,18 @@ func init() {
 		fmt.Fprintf(out, "def dateSize : Nat := %s\n", g.intConst("dateSize"))
 		fmt.Fprintf(out, "def smallOffsetLen : Nat := %s\n", so.intConst("SmallOffsetLen"))
 		fmt.Fprintf(out, "def cksumLen : Nat := %s\n", ck.intConst("Len"))
+		// the checksum: low 16 bits, little endian, of crc32 with the Castagnoli table
+		src, err := os.ReadFile(filepath.Join(repo, "util/cksum/cksum.go"))
+		if err != nil {
+			return err
+		}
+		for _, want := range []string{"crc32.MakeTable(crc32.Castagnoli)", "crc32.Checksum(data[:n], crc32table)",
+			"data[n] = byte(cs)", "data[n+1] = byte(cs >> 8)"} {
+			if !strings.Contains(string(src), want) {
+				return fmt.Errorf("util/cksum/cksum.go no longer contains %q", want)
+			}
+		}
+		fmt.Fprintf(out, "def crcPoly : Nat := %d\n", uint32(crc32.Castagnoli))
 		out.WriteString("\nend Gsu.Gen.StateRec\n")
 		return nil
 	})
